@@ -143,15 +143,15 @@ pub fn build(c: &Case, root_abs: &[u8]) -> Built {
     let mut src_ents: Vec<Vec<Ent>> = vec![];
     let mut src_is_dir: Vec<bool> = vec![];
     let mut eff_kinds: Vec<SrcKind> = vec![];
+    let mut src_tops: Vec<Vec<u8>> = vec![];
     for (s, n) in c.srcs.iter().zip(names.iter()) {
-        let top = join(base, n);
         let mut kind = s.kind.clone();
         if c.nolinks {
             kind = match kind {
                 SrcKind::Tree(g) => SrcKind::Tree(
                     g.into_iter()
                         .map(|mut x| {
-                            if !matches!(x.kind, GK::Dir | GK::File(..)) {
+                            if !matches!(x.kind, GK::Dir | GK::File(..) | GK::Fifo | GK::Sock) {
                                 x.kind = GK::File(33, 2);
                             }
                             x
@@ -162,11 +162,19 @@ pub fn build(c: &Case, root_abs: &[u8]) -> Built {
                 k => k,
             };
         }
+        // a source that is itself a symlink lives in the directory w/ and points to ../by/...: the same
+        // relative text also resolves from inside the destination directory (to a bystander)
+        let in_w = !globbing && matches!(kind, SrcKind::LinkToFile | SrcKind::LinkToDir);
+        let top = if in_w { join(b"w", n) } else { join(base, n) };
+        if in_w && !ents.iter().any(|e| e.path == b"w") {
+            ents.push(Ent::dir(b"w"));
+        }
+        src_tops.push(top.clone());
         let e: Vec<Ent> = match &kind {
             SrcKind::Tree(g) => build_tree(&top, g, root_abs, 4),
             SrcKind::File(l, seed) => vec![Ent::file(&top, Content::data(*l as u64, *seed)).with_mode(0o644).with_mtime(1_400_000_000, 42)],
-            SrcKind::LinkToFile => vec![Ent::link(&top, if globbing { b"../by/keep" } else { b"by/keep" })],
-            SrcKind::LinkToDir => vec![Ent::link(&top, if globbing { b"../by/sub" } else { b"by/sub" })],
+            SrcKind::LinkToFile => vec![Ent::link(&top, b"../by/keep")],
+            SrcKind::LinkToDir => vec![Ent::link(&top, b"../by/sub")],
         };
         src_is_dir.push(matches!(kind, SrcKind::Tree(_)));
         eff_kinds.push(kind);
@@ -327,7 +335,7 @@ pub fn build(c: &Case, root_abs: &[u8]) -> Built {
     match c.glob {
         GlobMode::Off => {
             for (i, s) in c.srcs.iter().enumerate() {
-                inv.sources.push(spell(&names[i], s.spell, root_abs, src_is_dir[i]));
+                inv.sources.push(spell(&src_tops[i], s.spell, root_abs, src_is_dir[i]));
             }
         }
         GlobMode::Star => {
